@@ -1,7 +1,8 @@
 META = {
     "assumptions": ["allocation failure out of scope (--no-malloc-may-fail)"],
     "outside": ["whole-filesystem file preservation (paths, contents, attributes) across an e2fsck run",
-                "htree index construction (calculate_tree), write_directory, extent rebuild, pass 5"],
+                "htree index construction (calculate_tree), write_directory, rewrite_extent_replay (writer side of the extent rebuild), pass 5",
+                "check_ext_attr: EA-inode values (check_large_ea_inode cut), entry hash (stubbed as matching), blocks larger than 96 bytes / more than 3 entries"],
 }
 HARNESSES = []
 HARNESSES.append(
@@ -48,6 +49,9 @@ MANIFEST = {
     "text": "Kernel-level slice (partial). Bounded-exhaustive on one fully symbolic directory block: fill_dir_block indexes exactly the live entries "
             "(minus . and .. in non-compress mode) with the right inode, size sum and parent; fill_dir_block -> copy_dir_entries preserves the multiset "
             "of (inode, type, name) for every slack percentage and entry order, and every output block is a tiling chain of valid entries. "
+            "The hash algorithm/seed/name handed to ext2fs_dirhash2 are the format's (unsigned variant iff flagged). load_extents (extent rebuild) keeps every "
+            "logical block's physical block and initialised/uninitialised state for a 2-3 node walk with a symbolic probe block. check_ext_attr with the real "
+            "region accounting keeps every well-formed 72-byte xattr block (no problem, i_file_acl kept) and reports every value overlap. "
             "File preservation across a whole e2fsck run is outside.",
     "note": "Trusted: CBMC's C semantics; hash replaced by a deterministic stub (order only); alloc_size_dir cut to a static area; sorting between the "
             "two steps represented by one symbolic transposition (config SWAP).",
